@@ -14,6 +14,7 @@ use std::{
 };
 
 pub mod net_shim;
+pub mod sync_shim;
 pub mod tokio_shim;
 pub mod watch_shim;
 
@@ -42,6 +43,11 @@ pub trait Scheduler: Send + Sync {
     fn blocking_yield(&self, id: u64, how: Yield);
     /// A waker which makes the blocked thread `id` ready again.
     fn blocking_waker(&self, id: u64) -> Waker;
+    /// Called on the simulation's own thread: lets one runnable simulated blocking thread run
+    /// until it yields; false if there is none.
+    fn blocking_help(&self) -> bool {
+        false
+    }
 }
 
 /// Why a blocking thread gives the baton back.
@@ -53,6 +59,9 @@ pub enum Yield {
     Preempted,
     /// Its closure has returned (or panicked).
     Done,
+    /// Wanted a lock which another simulated thread holds; runnable, but pointless to resume
+    /// before somebody else has run.
+    Contended,
 }
 
 thread_local! {
